@@ -70,6 +70,8 @@ pub fn generate(id: &str, thorough: bool, seed: u64, em: &mut Emitter) {
 pub fn execute(kind: &str, input: &Value) -> Value {
     match kind {
         "split" => c10::exec_split(input),
+        "misc" => c10::exec_misc(input),
+        "deep" => c10::exec_deep(input),
         "verify" => common::exec_verify(input),
         "issue" => issue::exec_issue(input),
         "present" => present::exec_present(input),
